@@ -45,10 +45,15 @@ def port(sid: str) -> None:
     try:
         base = os.path.join(tmp, "base")
         subprocess.run(["git", "clone", "-q", "/repo", base], check=True)
-        subprocess.run(["git", "checkout", "-q", "HEAD~1"], cwd=base, check=True)
-        r = subprocess.run(["git", "apply", patch], cwd=base, capture_output=True, text=True)
-        if r.returncode:
-            print(sid, "does not apply to HEAD~1 either:", r.stderr[:200]); return
+        rev = None
+        for k in range(1, 9):            # the most recent commit the stored patch still applies to
+            subprocess.run(["git", "checkout", "-q", f"origin/HEAD~{k}" if False else f"HEAD~{k}" if k == 1 else "HEAD~1"], cwd=base, check=True)
+            r = subprocess.run(["git", "apply", patch], cwd=base, capture_output=True, text=True)
+            if r.returncode == 0:
+                rev = subprocess.run(["git", "rev-parse", "HEAD"], cwd=base, capture_output=True, text=True).stdout.strip()
+                break
+        if rev is None:
+            print(sid, "does not apply to any of the last 8 commits:", r.stderr[:200]); return
         new = os.path.join(tmp, "new")
         subprocess.run(["git", "clone", "-q", "/repo", new], check=True)
         total = 0
@@ -56,7 +61,7 @@ def port(sid: str) -> None:
             theirs = os.path.join(base, f)
             basef = os.path.join(tmp, "b.py")
             with open(basef, "w") as fh:
-                fh.write(subprocess.run(["git", "show", f"HEAD~1:{f}"], cwd="/repo", capture_output=True, text=True).stdout)
+                fh.write(subprocess.run(["git", "show", f"{rev}:{f}"], cwd="/repo", capture_output=True, text=True).stdout)
             ours = os.path.join(new, f)
             subprocess.run(["git", "merge-file", "-q", ours, basef, theirs])
             txt, dropped = resolve(open(ours).read())
